@@ -27,7 +27,9 @@ def gen_cases(tier, seed, configs):
         body = []
         for gi, (bs, mode, auto, env) in enumerate(groupings):
             body.append("mark %d" % gi)
-            body.append("build bs=%d mode=%d" % (bs, mode) + (" auto=1" if auto else "") + (" env=%d" % env if env is not None else ""))
+            body.append("build bs=%d mode=%d" % (bs, mode) + (" auto=1 threads=HW" if auto else "") + (" env=%d" % env if env is not None else ""))
+            if r.random() < 0.3:
+                body.append("rebuild")       # the grouping as TbfTree::rebuild() reproduces it (nothing moved)
             body.append("exec seq flags=63 upper=%d" % upper)
             body.append("dump values")
         c = corefam.make_case("c08-%d" % k, D, H, periodic, parts, 1, 0, ["spec elems flags=63 upper=%d" % upper] + body,
@@ -73,14 +75,15 @@ def evaluate(res):
             orc.append(("C08:elems-vs-spec", "grouping %s: %r (%d extra), %r (%d missing) w.r.t. the grouping-free specification" % (label, a, na, b, nb)))
         if cv != want_vals:
             orc.append(("C08:values-vs-spec", "grouping %s: values differ from the grouping-free closed forms" % label))
-        if not auto:
-            lseg = ls.get(str(gi), [])
-            if core.elems_of_calls(lseg) != ce:
-                corr.append(("elems", "grouping %s: library and model disagree on the elementary interactions" % label))
-            if sorted(core.section(lseg, "V ")) != cv:
-                corr.append(("values", "grouping %s: library and model disagree on the values" % label))
-        else:
+        lseg = ls.get(str(gi), [])
+        if core.elems_of_calls(lseg) != ce:
+            corr.append(("elems", "grouping %s: library and model disagree on the elementary interactions" % label))
+        if sorted(core.section(lseg, "V ")) != cv:
+            corr.append(("values", "grouping %s: library and model disagree on the values" % label))
+        if auto:
             bl = [ln for ln in seg if ln.startswith("B ")]
+            if bl != [ln for ln in lseg if ln.startswith("B ")]:
+                corr.append(("auto-bs", "grouping %s: the library chose block size %r, the model of TbfBlockSizeFinder gives %r" % (label, bl, [ln for ln in lseg if ln.startswith("B ")])))
             if env is not None and bl and int(bl[0].split()[1]) != env:
                 orc.append(("C08:env", "TBFMM_BLOCK_SIZE=%d ignored: block size %s" % (env, bl[0].split()[1])))
             if bl and int(bl[0].split()[1]) < 1:
@@ -92,4 +95,4 @@ def evaluate(res):
 def run(rep, tier, seed, replay, proof_ok, proof_msg):
     corefam.standard_run(rep, tier, seed, replay, proof_ok, proof_msg, gen_cases, evaluate)
     rep.assumptions += ["bs <= 0 (reachable through TBFMM_BLOCK_SIZE=0) is outside the property's quantifier and not exercised",
-                        "automatic block size: the model takes the value the library chose as an input, so those groupings are compared with the others on the library side only"]
+                        "automatic block size: modelled (autoBlockSize: distinct occupied leaves / (2 x hardware threads), at least 1; TBFMM_BLOCK_SIZE overrides); the number of hardware threads is read from the machine"]
